@@ -310,6 +310,33 @@ def gen_eofseek(rng, nops=None):
     ops += epilogue()
     return ops
 
+def gen_truncseek(rng, nops=None):
+    """"truncate here": a write handle is brought to a position INSIDE the file on a data-block boundary by a seek, the file
+    is truncated to exactly that position, a bystander file is created on the blocks the truncation gave back, and then the
+    handle goes on (flush, write, close).  A handle that still holds a block the truncation released writes it over the
+    bystander."""
+    dostype = rng.randrange(6)
+    dbs = 512 if dostype & 1 else 488
+    ops = prologue(dostype, clock=(2012, 1, 2, 3, 4, 5))
+    for i in range(rng.randint(1, 3)):
+        a, b = b"t%d" % i, b"by%d" % i
+        total = rng.choice([3, 5, 8, 74, 80, 146])
+        k = rng.choice([1, 2, total - 1, min(72, total - 1), rng.randrange(1, total)])
+        ops += [f"open 1 0 0 {hx(a)} {rng.choice([2, 3])}", f"write 1 {total * dbs} {i + 1}"]
+        if rng.random() < 0.4: ops.append("flush 1")
+        if rng.random() < 0.3: ops.append(f"seek 1 {rng.randrange(0, total * dbs)}")
+        ops += [f"seek 1 {k * dbs}", f"trunc 1 {k * dbs}"]
+        ops += [f"open 2 0 0 {hx(b)} 2", f"write 2 {rng.choice([2, 4, 6]) * dbs - rng.choice([0, 1, 100])} {i + 40}", "close 2"]
+        for _ in range(rng.randint(1, 3)):
+            ops.append(rng.choice(["flush 1", f"write 1 {rng.choice([1, 10, dbs, dbs + 3])} {rng.randrange(1000)}", "stat 1"]))
+        ops += ["close 1", f"open 2 0 0 {hx(b)} 1", "read 2 200000", "close 2", f"open 2 0 0 {hx(a)} 1", "read 2 200000", "close 2", "free 0 0"]
+    ops += ["list 0 0 0"] + epilogue()
+    ops += ["opendev 0 1", "mount 0 0 1"]
+    for i in range(3):
+        for nm in (b"t%d" % i, b"by%d" % i): ops += [f"open 2 0 0 {hx(nm)} 1", "read 2 200000", "close 2"]
+    ops += ["free 0 0"] + epilogue()
+    return ops
+
 def gen_ofsappend(rng, nops=None):
     """files with extension blocks on which a read+write handle is positioned by a seek into the LAST extension block's
     range (or to the end and back to 0), then READS sequentially to the end (on OFS that follows the data blocks' own chain
